@@ -39,10 +39,16 @@ func ParseList(b []byte) (l List, size int, err error) {
 	}
 
 	ln := l.Len()
+	total := 0
 	for i := 0; i < ln; i++ {
 		b1 := l.GetBytes(i)
 		if len(b1) == 0 {
 			continue
+		}
+
+		// Elements must fit into the list data together
+		if total, err = addValueSize(total, b1, int(l.table.DataSize())); err != nil {
+			return
 		}
 
 		if _, _, err = ParseValue(b1); err != nil {
